@@ -41,19 +41,40 @@ def run(ctx):
                          "row kind); API differential: generated nets (water / gas / heat loop, plus pressure controllers "
                          "and gas nets with reverse-declared pipes in sequential mode) x 4 engine/update variants x 3 load "
                          "steps; distinct = canonical spec hash; non-trivial = the reference run converged")
-    ok_gen = True
-    for name, fn in GEN:
-        try:
-            ctx.gen(name, fn())
-        except Exception as e:  # translator is fail-closed
-            ok_gen = False
-            ctx.broken("translator", name, repr(e))
-    proved = ok_gen
-    if ok_gen:
-        for props in ("Props", "PropsAsm", "PropsSbg"):
-            proved = ctx.prove("C07", props=props) and proved
+    proved = gen_and_prove(ctx, GEN, ["Props", "PropsAsm", "PropsSbg"], "C07")
     kernel_differential(ctx, wide=not proved)
     api_differential(ctx, wide=not proved)
+
+
+def gen_and_prove(ctx, gen_entries, props_files, sub):
+    """gen -> prove; coq/Gen is shared with concurrently running checks (possibly of another tree): if a generated file
+    no longer holds the text generated here once the build is over, the obligations of that attempt are discarded and
+    the step is repeated."""
+    import vlib
+    for attempt in range(4):
+        texts, ok_gen = {}, True
+        for name, fn in gen_entries:
+            try:
+                texts[name] = fn()
+                ctx.gen(name, texts[name])
+            except Exception as e:  # translator is fail-closed
+                ok_gen = False
+                ctx.broken("translator", name, repr(e))
+        if not ok_gen:
+            return False
+        n_obl, n_brk = len(ctx.obligations), len(ctx.brokens)
+        proved = True
+        for props in props_files:
+            proved = ctx.prove(sub, props=props) and proved
+        stale = [n for n, t in texts.items()
+                 if open(os.path.join(vlib.COQ, "Gen", n + ".v")).read() != t]
+        if not stale or attempt == 3:
+            if stale:
+                ctx.note("generated files rewritten by a concurrent run during the build: %s" % stale)
+            return proved
+        del ctx.obligations[n_obl:]
+        del ctx.brokens[n_brk:]
+    return proved
 
 
 # ------------------------------------------------------------------------------------------------ kernel level
@@ -104,8 +125,7 @@ def classify(spec, mode, variant, kind, detail, cols, net_info):
         return sig
     if not upd and kind == "values" and spec["fluid"] != "water" and mode != "hydraulics" and net_info["reverse_flow"] and \
             set(cols) <= {"res_pipe.normfactor_from", "res_pipe.normfactor_mean", "res_pipe.v_from_m_per_s",
-                          "res_pipe.v_mean_m_per_s", "res_pipe.normfactor_to", "res_pipe.v_to_m_per_s"} and \
-            "res_pipe.normfactor_from" in cols:
+                          "res_pipe.v_mean_m_per_s"}:
         sig.update(columns="gas norm factors / velocities", direction_switched=True)
         return sig
     if not upd and kind == "status" and spec["fluid"] != "water" and net_info["zero_flow_branch"]:
@@ -154,8 +174,10 @@ def api_differential(ctx, wide=False):
                 spec = gen.gen_net(ctx.rng, prof, size=None if ctx.quick else ctx.rng.randint(3, 20))
                 if prof == "heat":
                     mode = ctx.rng.choice(["sequential", "sequential", "bidirectional"])
-                if r in (3, 4):
-                    s2 = CA.add_pressure_control(ctx.rng, spec, "to" if r == 3 else "far")
+                if r == 3:
+                    spec = CA.pc_chain_net(ctx.rng, controlled="to" if (i // 9) % 3 != 2 else "far")
+                elif r == 4:
+                    s2 = CA.add_pressure_control(ctx.rng, spec, ctx.rng.choice(["to", "far"]))
                     spec = s2 or spec
             ref, dis = CA.compare_all(spec, factors, mode)
         except Exception as e:  # generator artefact (e.g. unsupplied after editing): count, skip
